@@ -14,11 +14,6 @@ theorem rangeFields_of_all : (fs : Fields) → (∀ c ∈ fs.toList, rangeField 
   | .cons f r, h => by
     simp only [Fields.toList, List.mem_cons] at h
     simp [rangeFields, h f (Or.inl rfl), rangeFields_of_all r (fun c hc => h c (Or.inr hc))]
-theorem entriesFields_of_all : (fs : Fields) → (∀ c ∈ fs.toList, entriesField c = true) → entriesFields fs = true
-  | .nil, _ => rfl
-  | .cons f r, h => by
-    simp only [Fields.toList, List.mem_cons] at h
-    simp [entriesFields, h f (Or.inl rfl), entriesFields_of_all r (fun c hc => h c (Or.inr hc))]
 theorem reprFields_of_all : (fs : Fields) → (∀ c ∈ fs.toList, reprField c = true) → reprFields fs = true
   | .nil, _ => rfl
   | .cons f r, h => by
@@ -29,12 +24,6 @@ theorem rangeUFields_of_all : (us : UFields) → (∀ c ∈ us.toList.map (·.2)
   | .cons _ f r, h => by
     simp only [UFields.toList, List.map_cons, List.mem_cons] at h
     simp [rangeUFields, h f (Or.inl rfl), rangeUFields_of_all r (fun c hc => h c (Or.inr hc))]
-theorem entriesUFields_of_all : (us : UFields) → (∀ c ∈ us.toList.map (·.2), entriesField c = true) →
-    entriesUFields us = true
-  | .nil, _ => rfl
-  | .cons _ f r, h => by
-    simp only [UFields.toList, List.map_cons, List.mem_cons] at h
-    simp [entriesUFields, h f (Or.inl rfl), entriesUFields_of_all r (fun c hc => h c (Or.inr hc))]
 theorem reprUFields_of_all : (us : UFields) → (∀ c ∈ us.toList.map (·.2), reprField c = true) → reprUFields us = true
   | .nil, _ => rfl
   | .cons _ f r, h => by
@@ -45,46 +34,39 @@ theorem reprUFields_of_all : (us : UFields) → (∀ c ∈ us.toList.map (·.2),
 
 theorem side_repr_of_built {children : List Field} {dt : DataType} (hb : Built children dt)
     (hc : ∀ c ∈ children, SchemaOK c) (nl : Bool) :
-    rangeType dt = true ∧ entriesType dt = true ∧ reprType (normNullable dt nl) dt = true := by
+    rangeType dt = true ∧ reprType (normNullable dt nl) dt = true := by
   obtain ⟨ht, hr, hk⟩ := hb
   have hv : ∀ c ∈ kids dt, validField c = true := fun c h => by
     have := hc c (hk c h); simp only [SchemaOK, schemaOK, Bool.and_eq_true] at this; exact this.1
   have hp : ∀ c ∈ kids dt, reprField c = true := fun c h => by
     have := hc c (hk c h); simp only [SchemaOK, schemaOK, Bool.and_eq_true] at this; exact this.2
   have hrg : ∀ c ∈ kids dt, rangeField c = true := fun c h => (side_of_valid c (hv c h)).1
-  have hen : ∀ c ∈ kids dt, entriesField c = true := fun c h => (side_of_valid c (hv c h)).2
   cases dt with
   | struct fs =>
-    simp only [kids, childList] at hrg hen hp
-    exact ⟨rangeFields_of_all fs hrg, entriesFields_of_all fs hen, reprFields_of_all fs hp⟩
+    simp only [kids, childList] at hrg hp
+    exact ⟨rangeFields_of_all fs hrg, reprFields_of_all fs hp⟩
   | list f =>
-    simp only [kids, childList, List.mem_singleton, forall_eq] at hrg hen hp
-    exact ⟨hrg, hen, hp⟩
+    simp only [kids, childList, List.mem_singleton, forall_eq] at hrg hp
+    exact ⟨hrg, hp⟩
   | largeList f =>
-    simp only [kids, childList, List.mem_singleton, forall_eq] at hrg hen hp
-    exact ⟨hrg, hen, hp⟩
+    simp only [kids, childList, List.mem_singleton, forall_eq] at hrg hp
+    exact ⟨hrg, hp⟩
   | fixedSizeList f n =>
-    simp only [kids, childList, List.mem_singleton, forall_eq] at hrg hen hp
+    simp only [kids, childList, List.mem_singleton, forall_eq] at hrg hp
     simp only [Built.rangeTop] at hr
-    exact ⟨by simp [rangeType, hr, hrg], hen, hp⟩
+    exact ⟨by simp [rangeType, hr, hrg], hp⟩
   | map e sorted =>
-    simp only [kids, childList, List.mem_singleton, forall_eq] at hrg hen hp hv
+    simp only [kids, childList, List.mem_singleton, forall_eq] at hrg hp
     simp only [typeOK] at ht
-    refine ⟨hrg, ?_, by simp [reprType, ht, hp]⟩
-    simp only [entriesType, hen, Bool.and_true]
-    obtain ⟨en, edt, enl, em⟩ := e
-    cases edt <;> first | rfl | skip
-    simp only [validField, validType, Bool.and_eq_true] at hv
-    exact hv.1
+    exact ⟨hrg, by simp [reprType, ht, hp]⟩
   | union us mode =>
-    simp only [kids, childList] at hrg hen hp
+    simp only [kids, childList] at hrg hp
     simp only [typeOK, Bool.and_eq_true] at ht
-    exact ⟨rangeUFields_of_all us hrg, entriesUFields_of_all us hen,
-      by simp [reprType, ht.1, ht.2, reprUFields_of_all us hp]⟩
-  | fixedSizeBinary n => exact ⟨hr, rfl, rfl⟩
-  | decimal128 p s => exact ⟨ht, rfl, rfl⟩
-  | null => exact ⟨rfl, rfl, rfl⟩
-  | _ => exact ⟨rfl, rfl, rfl⟩
+    exact ⟨rangeUFields_of_all us hrg, by simp [reprType, ht.1, ht.2, reprUFields_of_all us hp]⟩
+  | fixedSizeBinary n => exact ⟨hr, rfl⟩
+  | decimal128 p s => exact ⟨ht, rfl⟩
+  | null => exact ⟨rfl, rfl⟩
+  | _ => exact ⟨rfl, rfl⟩
 
 /-- `CustomField::into_field`: children in `SchemaOK` and sorted metadata in, a field in `SchemaOK` out -/
 theorem intoField_sound (pinned : Bool) (name : String) (s : Text) (nl : Bool) (strat : Option Strategy)
@@ -98,8 +80,8 @@ theorem intoField_sound (pinned : Bool) (name : String) (s : Text) (nl : Bool) (
   unfold buildDataTypeWith at hdt
   obtain ⟨t, _, hdt⟩ := bind_ok_inv hdt
   have hb := buildDataTypeOfTerm_built t children dt hdt
-  obtain ⟨h1, h2, h3⟩ := side_repr_of_built hb hc nl
-  have hv := validField_of_validate _ (by simpa [rangeField] using h1) (by simpa [entriesField] using h2) hval
+  obtain ⟨h1, h3⟩ := side_repr_of_built hb hc nl
+  have hv := validField_of_validate _ (by simpa [rangeField] using h1) hval
   have hmo := metaOK_of_sorted md' (merge_sorted hmd hm)
   simp only [SchemaOK, schemaOK, hv, reprField, hmo, h3, Bool.and_self]
 
